@@ -12,6 +12,7 @@
 //     P<id>        (async app) answer the oldest unanswered request now
 //     D<id>        application calls disconnect() on the http connection
 //     X  server.shutdown()    C  server.close()    K  destroy the server    T  time passes
+//     Z<ms>  server.set_timeout(ms)   (with opts timeo=1 every accept logs the SO_RCVTIMEO/SO_SNDTIMEO read back from the socket)
 #define VERIF_WITH_ASIO
 #include "open_access.hpp"
 #include "sim_adaptor.hpp"
@@ -43,6 +44,7 @@ struct Opts
   std::string app{"sync"};
   bool chunk{false}, cont{false}, inv{false}, trace{false}, autod{false}, xlate{true};
   size_t maxc{1048576}, maxk{1048576};
+  bool timeo{false};
 };
 
 struct Recipe { int status{200}; size_t len{0}; int ov{1}; std::string hdrs; bool head_seen{false}; };
@@ -160,6 +162,7 @@ struct Sim
   void setup()
   {
     sim::the_world() = &w;
+    w.real_descriptors = o.timeo;
     server.reset(new Server(io));
     server->set_max_content_length(o.maxc);
     server->set_max_chunk_size(o.maxk);
@@ -270,6 +273,18 @@ struct Sim
         w.next_endpoint_throws = rest == "t";
         if (!server) break;
         server->server_->accept_handler(boost::system::error_code(), boost::asio::ip::tcp::socket(io));
+        if (o.timeo)
+        {
+          // what the library configured on the accepted socket (read back from the kernel)
+          Adaptor* a = adaptor(w.next_id);
+          if (a && a->socket_.fd >= 0)
+          {
+            struct timeval rv{0, 0}, sv{0, 0}; socklen_t l1 = sizeof rv, l2 = sizeof sv;
+            getsockopt(a->socket_.fd, SOL_SOCKET, SO_RCVTIMEO, &rv, &l1);
+            getsockopt(a->socket_.fd, SOL_SOCKET, SO_SNDTIMEO, &sv, &l2);
+            w.say(w.next_id, "timeo=" + std::to_string(rv.tv_sec) + "." + std::to_string(rv.tv_usec) + "/" + std::to_string(sv.tv_sec) + "." + std::to_string(sv.tv_usec));
+          }
+        }
         break;
       }
     case 'H': { Adaptor* a = adaptor(id); if (a && a->handshake_pending_) { a->handshake_pending_ = false; auto h = a->handshake_handler_; h(ec_of(arg)); } else w.say(id, "NO-HANDSHAKE"); break; }
@@ -327,6 +342,7 @@ struct Sim
     case 'C': if (server) { w.log.push_back("server-close"); server->close(); } break;
     case 'K': w.log.push_back("server-destroy"); server.reset(); break;
     case 'T': w.log.push_back("tick"); break;
+    case 'Z': if (server) { server->set_timeout(std::stoi(rest)); w.log.push_back("set-timeout=" + rest); } break;
     default: w.log.push_back("?" + e);
     }
   }
@@ -376,6 +392,7 @@ static std::string handle(std::string const& op, std::vector<std::string> const&
     else if (p[0] == "xlate") o.xlate = p[1] == "1";
     else if (p[0] == "maxc") o.maxc = std::stoull(p[1]);
     else if (p[0] == "maxk") o.maxk = std::stoull(p[1]);
+    else if (p[0] == "timeo") o.timeo = p[1] == "1";
   }
   auto events = hu::split(a[2], ';');
   if (a[0] == "tls") { Sim<true> s; s.o = o; return s.run(events); }
